@@ -103,7 +103,11 @@ let lockstep n sched =
 
 let () =
   iter_lines (fun line ->
-    match split_ws line with
+    (* a leading @<n> sets errno before the calls under test: neither model nor spec depends on it *)
+    let toks = match split_ws line with
+      | t :: rest when String.length t > 0 && t.[0] = '@' -> rest
+      | l -> l in
+    match toks with
     | ["F"; op; mode; rc; e; _] ->   (* the open mode of the FILE plays no role in the prescribed call *)
       let m = if mode = "B" then LockModel.BLOCK else LockModel.TRY in
       let flags = int_of_z (if op = "L" then LockModel.lock_flags m else LockModel.unlock_flags m) in
